@@ -1,0 +1,19 @@
+// Verification hook, compiled only with `--cfg sd_jwt_rs_verif` and feature `mock_salts` (off by
+// default; shipped behaviour is unchanged): every acquisition of the salt queue's lock through
+// `SALTS.lock()` first calls a callback a test harness may install, so that a simulator can treat
+// it as a scheduling point. The lock itself is the same `Mutex`.
+
+use crate::utils::SALTS;
+use std::collections::VecDeque;
+use std::sync::{LockResult, MutexGuard, OnceLock};
+
+pub static SCHED_POINT: OnceLock<fn()> = OnceLock::new();
+
+impl SALTS {
+    pub fn lock(&self) -> LockResult<MutexGuard<'_, VecDeque<String>>> {
+        if let Some(f) = SCHED_POINT.get() {
+            f();
+        }
+        std::ops::Deref::deref(self).lock()
+    }
+}
